@@ -175,6 +175,36 @@ fn main() {
         let out = match p[0] {
             "beacon" => beacon(p[1], p[2].parse().unwrap(), p[3].parse().unwrap(), p[4].parse().unwrap()),
             "entity" => entity(&p),
+            "attribution" => {
+                // A's own signature under A's label, under B's label, and under an unregistered label
+                use mithril_common::entities::{ProtocolMessage, ProtocolMessagePartKey};
+                use mithril_common::protocol::SignerBuilder;
+                use mithril_common::test::builder::MithrilFixtureBuilder;
+                let fixture = MithrilFixtureBuilder::default().with_signers(3).build();
+                let multi_signer = SignerBuilder::new(&fixture.signers_with_stake(), &fixture.protocol_parameters()).unwrap().build_multi_signer();
+                let mut message = ProtocolMessage::new();
+                message.set_message_part(ProtocolMessagePartKey::SnapshotDigest, "digest".to_string());
+                let signers = fixture.signers_fixture();
+                let mut found = None;
+                for s in signers.iter() {
+                    if let Some(sig) = s.sign(&message) {
+                        found = Some((s.party_id(), sig));
+                        break;
+                    }
+                }
+                match found {
+                    None => "scenario-not-built".to_string(),
+                    Some((owner, sig)) => {
+                        let other = signers.iter().map(|s| s.party_id()).find(|p| *p != owner).unwrap();
+                        let v = |label: &str| {
+                            let mut s2 = sig.clone();
+                            s2.party_id = label.to_string();
+                            if multi_signer.verify_single_signature(&message, &s2).is_ok() { "accepted" } else { "rejected" }
+                        };
+                        format!("own-label={} other-label={} unregistered-label={}", v(&owner), v(&other), v("pool1unregistered"))
+                    }
+                }
+            }
             // leaf_eq item|node block <hash> <n> <slot> <hash> <n> <slot>      |  leaf_eq item|node tx <txhash> <bhash> <n> <slot> (x2)
             "leaf_eq" => {
                 use mithril_common::crypto_helper::MKTreeNode;
